@@ -10,7 +10,7 @@
    [is_legacy v = false] covers Fixed and Ideal. *)
 From Coq Require Import NArith List Bool.
 From RV Require Import Manager.ReloadModel Manager.ReloadProofs.
-From RV Require Rib.RibModel E2e.E2eModel E2e.E2eProofs.
+From RV Require Rib.RibModel E2e.E2eModel E2e.E2eProofs Bgp.BgpSessionModel Bgp.BgpSessionProofs.
 Import ListNotations.
 Local Open Scope N_scope.
 
@@ -281,6 +281,33 @@ Example C13_vrib_example :
                           E2eModel.MkVrib (E2eModel.SRejectPfx 8) 1 1 1] /\ E2eModel.es_cur st = 1%nat /\
   E2eModel.vrib_query_code st 2 0 8 = E2eModel.VAnswer [] /\ E2eModel.vrib_query_code st 3 0 8 = E2eModel.VAbsent.
 Proof. exact E2eProofs.vrib_example. Qed.
+
+(* ---- established BGP sessions of a bgp-tcp-in unit that is reconfigured (Bgp/BgpSessionModel.v: the select! loop of
+   the per-session Processor::process; tied to the code by the `bgpend` engine, event `r <kind>`) ----
+   [bs_spared e]: e is a Reconfiguring that changes neither listen / my_asn / my_bgp_id nor this session's peer entry:
+   nothing at all (BRSame) or only other peers' entries (BROthers). *)
+
+(* such a reconfiguration is no event for the session: no Disconnect, nothing sent, the loop goes on *)
+Theorem C13_bgp_reconfigure_spares_session : forall id key s e,
+  BgpSessionModel.bs_spared e = true -> BgpSessionModel.bs_step id key s e = (s, true).
+Proof. exact BgpSessionProofs.reconf_spares_session. Qed.
+Print Assumptions C13_bgp_reconfigure_spares_session.
+
+(* ... for every script of events: taking those reconfigurations out changes nothing of what the session does (updates
+   sent, live_sessions, commands to the session, the withdrawal at its end) *)
+Theorem C13_bgp_spared_reconfigurations_invisible : forall id key live0 evs,
+  fst (BgpSessionModel.bs_process id key live0 evs) =
+  fst (BgpSessionModel.bs_process id key live0 (filter (fun e => negb (BgpSessionModel.bs_spared e)) evs)).
+Proof. exact BgpSessionProofs.spared_reconfs_invisible. Qed.
+Print Assumptions C13_bgp_spared_reconfigurations_invisible.
+
+(* ... and only those are spared: any other reconfiguration makes the session disconnect (reconfiguration / de-configured) *)
+Theorem C13_bgp_other_reconfigurations_disconnect : forall id key s r,
+  BgpSessionModel.bs_spared (BgpSessionModel.BReconf r) = false ->
+  exists c go, BgpSessionModel.bs_step id key s (BgpSessionModel.BReconf r) = (BgpSessionModel.bs_command s c, go) /\
+               (c = BgpSessionModel.BCReconfiguration \/ c = BgpSessionModel.BCDeconfigured).
+Proof. exact BgpSessionProofs.reconf_not_spared_disconnects. Qed.
+Print Assumptions C13_bgp_other_reconfigurations_disconnect.
 
 (* non-vacuity: a valid pipeline with a shorthand rib (expanded to two vRIBs),
    an unused unit and three targets loads, runs what the file says, and a
